@@ -417,14 +417,15 @@ def observed_trace(o, flags):
         tags.append(7)
     if o['summary']:
         tags.append(9)
-    if not o['result_buffer_left']:
-        tags.append(10)
     if 11 in o['log_tags']:
         tags.append(11)
     if o['raised']:
         tags.append(12)
     if o['traceback_in_log_file'] or (not o['log_file'] and 13 in o['log_tags']):
         tags.append(13)                      # before the log file iff the file holds the traceback
+    if not o['result_buffer_left']:
+        tags.append(10)                      # observed: nothing named result_buffer_* is left (by listing, after all
+                                             # descendants exited); its place in the order is the model's (finally block)
     if flags[0] and not o['tmp_dir_left']:
         tags.append(14)
     if 15 in o['log_tags']:
